@@ -71,8 +71,9 @@ func (s *Scenario) Assemble() []string {
 type Expect struct {
 	Err         bool
 	ErrClass    string   // "", conv, unknown, ambiguous, missing
-	ErrContains []string // every one must be contained in the message
-	ErrAbsent   []string
+	ErrContains []string   // first error candidate in argv order: every one must be contained in the message
+	ErrAlts     [][]string // all error candidates (the statements do not rank different kinds of error)
+	ErrAbsent   []string   // for unknown-option errors: names that must not be the one reported
 	Remaining   []string
 	Vals        map[int]string
 	Called      map[int]bool
@@ -101,6 +102,9 @@ type foldState struct {
 	exp  *Expect
 	cur  map[int]interface{} // current typed value per option id
 	stop bool
+
+	sawFailUnknown bool
+	firstUnknown   string
 }
 
 func newFold(t *Tree) *foldState {
@@ -181,7 +185,11 @@ func contains(ss []string, s string) bool {
 }
 
 func (f *foldState) fail(class string, contains ...string) {
+	f.exp.ErrAlts = append(f.exp.ErrAlts, contains)
 	if f.exp.Err {
+		if f.exp.ErrClass != class {
+			f.exp.ErrClass = "several"
+		}
 		return
 	}
 	f.exp.Err = true
@@ -276,7 +284,25 @@ func (f *foldState) unknownTok(it *Item) {
 	// require order: an unknown option is the stop token (handled by caller through f.stop)
 	switch f.node.Unknown {
 	case 0:
-		f.fail("unknown", "'"+it.UnkNames[0]+"'")
+		if f.sawFailUnknown {
+			// a later unknown option must not be the one reported
+			for _, n := range it.UnkNames {
+				q := "'" + n + "'"
+				if q != f.firstUnknown {
+					f.exp.ErrAbsent = append(f.exp.ErrAbsent, q)
+				}
+			}
+			return
+		}
+		f.sawFailUnknown = true
+		f.firstUnknown = "'" + it.UnkNames[0] + "'"
+		f.fail("unknown", f.firstUnknown)
+		for _, n := range it.UnkNames[1:] {
+			q := "'" + n + "'"
+			if q != f.firstUnknown {
+				f.exp.ErrAbsent = append(f.exp.ErrAbsent, q)
+			}
+		}
 	case 1:
 		f.exp.WarnNames = append(f.exp.WarnNames, it.UnkNames...)
 		f.exp.Remaining = append(f.exp.Remaining, it.Tokens[0])
@@ -356,14 +382,26 @@ func Diff(t *Tree, oc *Outcome, e *Expect) []string {
 			d = append(d, fmt.Sprintf("expected a parse error (%s %v), got none; remaining=%q", e.ErrClass, e.ErrContains, oc.Remaining))
 			return d
 		}
-		for _, c := range e.ErrContains {
-			if !strings.Contains(oc.Err, c) {
-				d = append(d, fmt.Sprintf("error %q does not mention %q", oc.Err, c))
+		matched := false
+		for _, alt := range e.ErrAlts {
+			all := true
+			for _, c := range alt {
+				if !strings.Contains(oc.Err, c) {
+					all = false
+				}
+			}
+			if all {
+				matched = true
 			}
 		}
-		for _, c := range e.ErrAbsent {
-			if strings.Contains(oc.Err, c) {
-				d = append(d, fmt.Sprintf("error %q mentions %q", oc.Err, c))
+		if !matched {
+			d = append(d, fmt.Sprintf("error %q mentions none of the expected causes %q", oc.Err, e.ErrAlts))
+		}
+		if strings.Contains(oc.Err, "Unknown option") {
+			for _, c := range e.ErrAbsent {
+				if strings.Contains(oc.Err, c) {
+					d = append(d, fmt.Sprintf("error %q names %s, which is not the first unknown option", oc.Err, c))
+				}
 			}
 		}
 		if !oc.RemNil {
